@@ -18,3 +18,23 @@ package keeper
 //@ decabstract
 //@ ensures C02/total-shares-track-supply: shareGap(ctx, p) == old(shareGap(ctx, p))
 //@ ensures C01/each-swap-works-on-a-pool-just-read: true
+
+
+// ---- C18: block processing never panics ------------------------------------------------------------------
+// The external-incentive half of the end-block function (the LP-reward half is not covered).
+//@ func (Keeper).ProcessExternalRewardsDistribution
+//@ nopanic
+//@ decabstract
+//@ ensures C18/external-rewards-step-completes: true
+
+//@ func (Keeper).GetPoolTVL
+//@ modifies nothing
+//@ frame-only
+
+//@ func (Keeper).UpdateAccPerShare
+//@ modifies table:masterchef:types.GetPoolRewardInfoKey
+//@ frame-only
+
+//@ func (Keeper).GetAllExternalIncentives
+//@ modifies nothing
+//@ frame-only
